@@ -415,3 +415,29 @@ prop('C18', extra_flavours=['varZ', 'varP'],
      level_text=("Metamorphic/differential testing: the same generated scenario in three differently built and differently poisoned executions must emit identical bytes and dumps; exploration, thin sampling of memory states."),
      technique="metamorphic differential property-based testing across differently-initialised builds/processes (rapidcheck + libFuzzer driving twin child processes)",
      design_ref="DESIGN.md section 3, C18")
+
+# Additions of the checklist-driven and cross-property rounds (second session), appended to the rule text each evidence file carries.
+MORE = {
+ 'C01': "the written archive is compared byte for byte with an independent encoder (refvol::encode), over nothing / a shorter / a 70000-byte pre-existing output file, into a directory that does not exist yet, to an output path that is a prefix relative of an input; members are opened by case-varied name as well as by index; ExtractAllFiles under several spellings of the destination; sweeps of zero-length members at every position, 1/200/255-character names, 700 x 100-character names (thorough); twin names differing only in {[ }] ~^.",
+ 'C02': "members of the format's RLE (0x101) and LZ (0x102) kinds are listed and streamed like any other while extraction may be refused with the object staying usable; unused index slots carry the block offset of a real member.",
+ 'C03': "chunk tags one character away from 'data'/'fmt ' (first, middle, last), decoy chunk headers inside payloads, second data/fmt chunks after the audio, extensions '', .wave, .w, .snd, path spellings x ./x d//x d/./x absolute, an older 300000-byte output file, repack fixpoint (extracted WAVs packed again give the same bytes), duplicate base names separated by a dotted name, chunk chains of hundreds of chunks.",
+ 'C04': "sessions mixing GetData and the internal-buffer interface incl. zero-size copies (with one productive step guaranteed), calls after the end of stream, the index size field as a mere label, several LZH members extracted through one archive object.",
+ 'C05': "six seed volumes; extraction onto an existing directory and by name; compression-kind values 0x100..0x104 and 0xFFFF in the 32-bit field sweeps; over-long reads on member streams; repeated calls.",
+ 'C06': "an older longer output file, the same map written twice, write/read cycles between edits (must equal the edits alone), group names of 255/256/300/70000 characters, 300 groups, 2048/4097/5000 tile mappings, maps 2^11 and 2^12 tiles wide.",
+ 'C07': "log2 widths that are 0 modulo 32 and tile products of exactly 2^32 (+ a few) on files that supply the wrapped number of tiles; file-backed prefixes via the file-name overload; unit-size sweep.",
+ 'C08': "the file-name overload over an older longer file; non-zero row padding going in (meaningful bytes survive, padding written as zero; whole-object equality only promised for zero padding); factory widths at the int32 edge (2^31-1 x 0 legal, negative widths refused); stated image size and non-zero compression field variants.",
+ 'C09': "file-backed detection and loading; heights where 32h crosses 2^16 and 2^18; the file-name overloads over an older longer file; load-save fixpoint; tileset-shaped standard bitmaps with a partial colour table (padding must be black).",
+ 'C10': "the file-name overloads; palette/image/animation tables past 4096 entries; layer-list lengths that only agree modulo 2^8/2^16.",
+ 'C11': "file-backed entry points for every loader; positive width whose pitch x height is 2^32; PRT tables of 300/4097 palettes-or-images.",
+ 'C12': "windows straddling the 4096/8192 byte boundaries of a file buffer; file slices starting beyond 2^31 and 2^32 in a sparse file, the last straddling 2^32; size-prefixed strings with room behind the prefix.",
+ 'C13': "the archive object destroyed or re-created while streams opened from it are still in use (they own their handle).",
+ 'C14': "a user type that serialises itself through Writer::Write(T&); FileWriter data split over several calls, small-bulk-small sequences, writers move-constructed or moved to the heap before use; wide strings.",
+ 'C15': "refused calls in the middle of a history (everything afterwards as if not made); chain-shaped frequency histories driving code lengths to 19..21 bits.",
+ 'C16': "maps 2^11..2^16 tiles wide (block numbers of 6..11 bits) and copies of maps: copy-constructed, copy-assigned over another shape, move-constructed.",
+ 'C17': "zero-length loose files and members, archive names with several dots ('3.0.vol'), dot-leading names, archives NOT in binary-search order (first match in index order), twin names.",
+ 'C18': "foreign VOL files (stale unused slots, extra name padding, index length covering pad bytes) parsed and dumped; other spellings of the same input paths.",
+ 'C19': "name lists beyond the insertion-sort range of std::sort; the path-relation matrix; respelled triples.",
+ 'C20': "sources whose FILE sizes add up past 2^32 only because of big chunks after the data (must fit); a 2.5 GiB sparse chunk after the data; CLM stems measured without whatever extension the file has; multi-layer frames with compensating counts.",
+}
+for _pid, _t in MORE.items():
+    PROPS[_pid]['rule'] += " Also generated (second session): " + _t
